@@ -12,6 +12,12 @@ type PropDef struct {
 var propOrder = []string{"C01", "C02", "C03", "C04", "C05", "C06", "C07", "C08", "C09", "C11", "C12", "C13", "C14", "C15", "C16", "C17", "C18", "C19", "C20"}
 
 var props = map[string]*PropDef{
+	"C08": {
+		Rules:      []string{"NS-1", "NS-2", "NS-3", "MAPCACHE-1", "TXN-1"},
+		Decided:    "(in progress)",
+		NotDecided: "(in progress)",
+		Technique:  "guard dominance + path-sensitive dataflow",
+	},
 	"C11": {
 		Rules:      []string{"TABLE-ESC", "SINK-1", "OPT-1"},
 		Decided:    "(in progress)",
@@ -25,19 +31,19 @@ var props = map[string]*PropDef{
 		Technique:  "path-sensitive go/cfg dataflow",
 	},
 	"C16": {
-		Rules:      []string{"STALE-1", "TXN-2", "NAMES-1", "BUF-1", "FP-2", "PTR-1"},
+		Rules:      []string{"STALE-1", "TXN-2", "NAMES-1", "BUF-1", "FP-2", "PTR-1", "PTR-2"},
 		Decided:    "(in progress)",
 		NotDecided: "(in progress)",
 		Technique:  "path-sensitive go/cfg dataflow",
 	},
 	"C02": {
-		Rules:      []string{"FP-1", "FP-2", "FP-3", "FP-4", "STALE-3"},
+		Rules:      []string{"FP-1", "FP-2", "FP-3", "FP-4", "STALE-3", "NS-2", "SINK-1"},
 		Decided:    "(in progress)",
 		NotDecided: "(in progress)",
 		Technique:  "path-sensitive go/cfg dataflow",
 	},
 	"C01": {
-		Rules:      []string{"KIND-1", "DEPTH-1"},
+		Rules:      []string{"KIND-1", "DEPTH-1", "MAPCACHE-1", "TXN-1"},
 		Decided:    "(in progress)",
 		NotDecided: "(in progress)",
 		Technique:  "sibling matrix + table evaluation",
@@ -61,7 +67,7 @@ var props = map[string]*PropDef{
 		Technique:  "path-sensitive go/cfg dataflow (atoms: mutated, error nil-ness, namespace validity, name position) with recomputed effect summaries",
 	},
 	"C19": {
-		Rules:      []string{"OPT-1", "OPT-2", "OPT-3"},
+		Rules:      []string{"OPT-1", "OPT-2", "OPT-3", "OPT-4", "OPT-5", "OPT-6"},
 		Decided:    "the flag constants form a consistent bit algebra, every boolean option constructor is injective and value-faithful, and JoinOptions/GetOption agree on which flag guards which value field.",
 		Technique:  "constant-table evaluation of the flag algebra; path-sensitive check of every func(bool) Options constructor; sibling agreement of the Join/GetOption type switches",
 		NotDecided: "the bit arithmetic of Flags.Join/Set/Get/Clear themselves (five-line bodies; their correctness is arithmetic), and the behavioural irrelevance of options beyond the read/write partition.",
